@@ -66,6 +66,13 @@ def gen(rng, tier):
                         cases.append({'codec': codec, 'blocked': blocked, 'kind': kind, 'k': k, 'good': [g.hex() for g in good],
                                       'style': ['loop', 'next-then-loop', 'batches'][(n + k + len(cases)) % 3],
                                       'cut': rng.randrange(1, 20), 'big': rng.choice([6001, 6002, 70000, 0x40404040, 0xffffffff])})
+    # blocked files cut short INSIDE THEIR SECOND BLOCK (what is left is between 1014 and 2028 bytes: too short for an
+    # inspection of the file to see the second trailer), always through the tools as well
+    for codec in ('latin_1', 'cp500'):
+        for sizes in ((600, 500), (1100,), (300, 300, 500), (990, 40)):
+            good = [iu.ref_wire(iu.sized_message(rng, n), pk, codec, False) for n in sizes] + [iu.ref_wire(iu.sized_message(rng, 400), pk, codec, False)]
+            cases.append({'codec': codec, 'blocked': True, 'kind': 'truncated', 'k': len(good), 'good': [g.hex() for g in good], 'style': 'loop',
+                          'cut': rng.randrange(1, 200), 'big': 6001, 'tools': True})
     # resilient consumers: several bad records in one file, the consumer keeps the reader after each data error
     for i in range(180 if tier == 'quick' else 9000):
         codec = rng.choice(['latin_1', 'cp500'])
@@ -210,8 +217,38 @@ def impl(case):
             with contextlib.redirect_stdout(out):
                 print_exception_details(ex)
             res['printed'] = [l for l in out.getvalue().splitlines() if l.startswith('Error detected')]
+            res['printed_full'] = out.getvalue()
     res['recs'] = recs
     res['solo'] = [iu.dict_text(iso8583.loads(bytes.fromhex(g), encoding=case['codec'])) for g in case['good'][:case['k'] - 1]]
+    import zlib
+    if zlib.crc32(f) % 3 == 0 or case.get('tools'):
+        # the same file through the command line tools: what the conversion function raises, and what the extraction
+        # command prints and writes before it stops (the blocking option given as the file is / left out for a blocked file)
+        import os
+        from cardutil.cli import mci_ipm_encode, mci_ipm_to_csv
+        other = 'cp500' if case['codec'] == 'latin_1' else 'latin_1'
+        fmt = '1014' if case['blocked'] else 'vbs'
+        try:
+            mci_ipm_encode.mci_ipm_encode(io.BytesIO(f), out_file=io.BytesIO(), in_encoding=case['codec'], out_encoding=other, in_format=fmt, out_format=fmt)
+            res['enc'] = ['END']
+        except Exception as ex:
+            res['enc'] = [exc_class(ex), getattr(ex, 'record_number', None), (getattr(ex, 'binary_context_data', None) or b'').hex()]
+        path = os.path.join(os.getcwd(), 'c10_%d.ipm' % os.getpid())
+        with open(path, 'wb') as g:
+            g.write(f)
+        out = io.StringIO()
+        try:
+            with contextlib.redirect_stdout(out):
+                args = [path, '-o', path + '.csv', '--in-encoding', case['codec']] + ([] if case['blocked'] else ['--no1014blocking'])
+                rc = mci_ipm_to_csv.cli_run(**vars(mci_ipm_to_csv.cli_parser().parse_args(args)))
+            res['csv'] = {'rc': rc, 'printed': [l for l in out.getvalue().splitlines() if l.startswith('Error detected')],
+                          'same_details': bool(res.get('printed_full')) and res['printed_full'] in out.getvalue()}
+        except Exception as ex:
+            res['csv'] = {'rc': 'RAISE ' + exc_class(ex)}
+        finally:
+            for q in (path, path + '.csv'):
+                if os.path.exists(q):
+                    os.unlink(q)
     return res
 
 
@@ -266,6 +303,11 @@ def judge(case, io_, mo):
         ps.append({'kind': 'oracle', 'sig': 'wrong-context-bytes', 'msg': 'context data is not the raw bytes of record %d (or what could be read of it)' % k})
     if io_.get('printed') != ['Error detected in record %d' % k]:
         ps.append({'kind': 'oracle', 'sig': 'operator-message', 'msg': 'operator message %s' % io_.get('printed')})
+    if not ps and 'enc' in io_ and case['kind'] not in ('pds', 'supdigit-pds') and io_['enc'] != ['DATAERR', k, ctx.hex()]:
+        # (the conversion reads without PDS expansion, so a fault inside the PDS data is none for it)
+        ps.append({'kind': 'oracle', 'sig': 'conversion-tool-error-report', 'msg': 'mci_ipm_encode on the same file reports %s, the reader record %d with its raw bytes' % (str(io_['enc'])[:80], k)})
+    if not ps and 'csv' in io_ and (io_['csv'].get('printed') != ['Error detected in record %d' % k] or not io_['csv'].get('same_details')):
+        ps.append({'kind': 'oracle', 'sig': 'extraction-command-report', 'msg': 'mci_ipm_to_csv on the same file: %s; expected the operator message for record %d with the details (raw bytes) the reader reports' % (str(io_['csv'])[:120], k)})
     if mo is not None and not ps and not mo[0].startswith('UNMODELLED'):
         end = mo[0].rpartition('|')[2]
         if end != 'ERR:%d:%s' % (io_['recno'], io_['ctx'] or '-'):
